@@ -609,7 +609,15 @@ class ClassParser(BaseParser):
         ):
             # if __init__ is declared but passed, we still make a new one
 
-            def __init__(_obj_self, _d: dict = None, **kwargs):
+            def __init__(*args, **kwargs):
+                # def __init__(_obj_self, _d: dict = None, /, **kwargs):
+                # the instance and the mapping are taken from *args: an item of the data can have any name, also theirs
+                _obj_self, *args = args
+                if len(args) > 1:
+                    raise TypeError(
+                        f"{self.name}.__init__() takes at most 1 positional argument ({len(args)} given)"
+                    )
+                _d = args[0] if args else None
                 parser = self.get_parser(_obj_self)
 
                 context = getattr(_obj_self, "__context__", None)
